@@ -77,6 +77,7 @@ float_str.__class__.pi_value = pi
 
 
 @float_str.strategy("auto")
+@elementwise("value", 0)
 def float_str(value, order="pprpr", size=[4, 5, 3, 6, 4],
               after=False, max_denominator=1000000):
   """
